@@ -37,6 +37,79 @@ Definition check (c : case) : bool :=
       option_eqb value_eqb (dval mapping_env mapping_strict case_fuel (KPtrS root) VNil j) impl
   end.
 
+(* ---------------------------------------------------------------- wire format of cases files
+   The harness prints cases with the monomorphic constructors below (no implicit arguments, Coq
+   string literals for printable names), which Coq elaborates an order of magnitude faster than
+   nested polymorphic list / pair literals; [case_of_wire] turns them into the [case] above. *)
+Inductive wstr := WS (s : string) | WB (l : list Z).
+
+Inductive wjson :=
+| WNull | WBool (b : bool) | WInt (z : Z) | WDec (s : wstr) | WStr (s : wstr)
+| WArr (l : wjlist) | WObj (m : wjmembers)
+with wjlist := WJNil | WJCons (x : wjson) (l : wjlist)
+with wjmembers := WMNil | WMCons (k : wstr) (x : wjson) (m : wjmembers).
+
+Inductive wvalue :=
+| WVBool (b : bool) | WVInt (z : Z) | WVStr (s : wstr) | WVAny (j : wjson) | WVNil
+| WVPtr (fs : wfields) | WVList (l : wvlist) | WVMap (m : wfields)
+with wfields := WFNil | WFCons (k : wstr) (v : wvalue) (rest : wfields)
+with wvlist := WLNil | WLCons (v : wvalue) (l : wvlist).
+
+Inductive wopt_value := WVNone | WVSome (v : wvalue).
+Inductive wopt_json := WJNone | WJSome (j : wjson).
+
+Inductive wcase :=
+| WRound (orig : wvalue) (impl_json : wjson) (reparsed : wopt_value)
+         (validates same_bytes : bool) (reopened : wopt_json)
+| WDecode (root : wstr) (j : wjson) (impl : wopt_value).
+
+Definition str_of (w : wstr) : bytes := match w with WS s => s2b s | WB l => l end.
+
+Fixpoint json_of (w : wjson) : json :=
+  match w with
+  | WNull => JNull
+  | WBool b => JBool b
+  | WInt z => JNum (NInt z)
+  | WDec s => JNum (NDec (str_of s))
+  | WStr s => JStr (str_of s)
+  | WArr l => JArr (jlist_of l)
+  | WObj m => JObj (jmembers_of m)
+  end
+with jlist_of (l : wjlist) : list json :=
+  match l with WJNil => [] | WJCons x l' => json_of x :: jlist_of l' end
+with jmembers_of (m : wjmembers) : list (bytes * json) :=
+  match m with WMNil => [] | WMCons k x m' => (str_of k, json_of x) :: jmembers_of m' end.
+
+Fixpoint value_of (w : wvalue) : value :=
+  match w with
+  | WVBool b => VBool b
+  | WVInt z => VInt z
+  | WVStr s => VStr (str_of s)
+  | WVAny j => VAny (json_of j)
+  | WVNil => VNil
+  | WVPtr fs => VPtr (fields_of fs)
+  | WVList l => VList (vlist_of l)
+  | WVMap m => VMap (fields_of m)
+  end
+with fields_of (fs : wfields) : list (bytes * value) :=
+  match fs with WFNil => [] | WFCons k v r => (str_of k, value_of v) :: fields_of r end
+with vlist_of (l : wvlist) : list value :=
+  match l with WLNil => [] | WLCons v l' => value_of v :: vlist_of l' end.
+
+Definition opt_value_of (o : wopt_value) : option value :=
+  match o with WVNone => None | WVSome v => Some (value_of v) end.
+Definition opt_json_of (o : wopt_json) : option json :=
+  match o with WJNone => None | WJSome j => Some (json_of j) end.
+
+Definition case_of_wire (w : wcase) : case :=
+  match w with
+  | WRound m j r2 vok same reop =>
+      CRound (value_of m) (json_of j) (opt_value_of r2) vok same (opt_json_of reop)
+  | WDecode root j impl => CDecode (str_of root) (json_of j) (opt_value_of impl)
+  end.
+
+Definition wcheck (w : wcase) : bool := check (case_of_wire w).
+
 Inductive expl :=
 | ERound (in_domain : bool) (model_json : option json) (model_decode : option value)
 | EDecode (model_decode : option value).
@@ -46,3 +119,5 @@ Definition explain (c : case) : expl :=
   | CRound m j _ _ _ _ => ERound (wf_mapping case_fuel m) (to_json case_fuel m) (of_json case_fuel j)
   | CDecode root j _ => EDecode (dval mapping_env mapping_strict case_fuel (KPtrS root) VNil j)
   end.
+
+Definition wexplain (w : wcase) : expl := explain (case_of_wire w).
